@@ -42,6 +42,8 @@ var (
 	ErrNestedFunctionCall            = errors.New("Nested function calls are not currently supported in SELECT")
 	ErrInvalidPeriod                 = errors.New("Please specify a period in the form period(5s) where 5s can be any valid Go duration expression")
 	ErrInvalidStride                 = errors.New("Please specify a stride in the form stride(5s) where 5s can be any valid Go duration expression")
+	ErrNotSelect                     = errors.New("Only SELECT statements are supported")
+	ErrLuaArgs                       = errors.New("LUA requires its keys and args to be specified with ARRAY(...)")
 )
 
 var aggregateFuncs = map[string]func(interface{}) expr.Expr{
@@ -94,14 +96,26 @@ var binaryGoExpr = map[string]func(goexpr.Expr, goexpr.Expr) goexpr.Expr{
 	"SISMEMBER": redis.SIsMember,
 }
 
-var ternaryGoExpr = map[string]func(goexpr.Expr, goexpr.Expr, goexpr.Expr) goexpr.Expr{
-	"SPLIT":      goexpr.Split,
-	"SUBSTR":     goexpr.Substr,
-	"REPLACEALL": goexpr.ReplaceAll,
-	"LUA": func(script goexpr.Expr, keys goexpr.Expr, args goexpr.Expr) goexpr.Expr {
-		_keys := keys.(*goexpr.ArrayExpr)
-		_args := args.(*goexpr.ArrayExpr)
-		return redis.Lua(script, _keys.Items, _args.Items...)
+var ternaryGoExpr = map[string]func(goexpr.Expr, goexpr.Expr, goexpr.Expr) (goexpr.Expr, error){
+	"SPLIT": func(a goexpr.Expr, b goexpr.Expr, c goexpr.Expr) (goexpr.Expr, error) {
+		return goexpr.Split(a, b, c), nil
+	},
+	"SUBSTR": func(a goexpr.Expr, b goexpr.Expr, c goexpr.Expr) (goexpr.Expr, error) {
+		return goexpr.Substr(a, b, c), nil
+	},
+	"REPLACEALL": func(a goexpr.Expr, b goexpr.Expr, c goexpr.Expr) (goexpr.Expr, error) {
+		return goexpr.ReplaceAll(a, b, c), nil
+	},
+	"LUA": func(script goexpr.Expr, keys goexpr.Expr, args goexpr.Expr) (goexpr.Expr, error) {
+		_keys, ok := keys.(*goexpr.ArrayExpr)
+		if !ok {
+			return nil, ErrLuaArgs
+		}
+		_args, ok := args.(*goexpr.ArrayExpr)
+		if !ok {
+			return nil, ErrLuaArgs
+		}
+		return redis.Lua(script, _keys.Items, _args.Items...), nil
 	},
 }
 
@@ -200,7 +214,10 @@ func TableFor(sql string) (string, error) {
 	if err != nil {
 		return "", err
 	}
-	stmt := parsed.(*sqlparser.Select)
+	stmt, ok := parsed.(*sqlparser.Select)
+	if !ok {
+		return "", ErrNotSelect
+	}
 	return strings.ToLower(nodeToString(stmt.From[0])), nil
 }
 
@@ -210,7 +227,11 @@ func Parse(sql string) (*Query, error) {
 	if err != nil {
 		return nil, fmt.Errorf("Error parsing %v: %v", sql, err)
 	}
-	return parse(parsed.(*sqlparser.Select))
+	stmt, ok := parsed.(*sqlparser.Select)
+	if !ok {
+		return nil, ErrNotSelect
+	}
+	return parse(stmt)
 }
 
 func parse(stmt *sqlparser.Select) (*Query, error) {
@@ -1172,7 +1193,7 @@ func goFnExprFor(e *sqlparser.FuncExpr, fname string) (goexpr.Expr, error) {
 		if err != nil {
 			return nil, err
 		}
-		return tfn(p0, p1, p2), nil
+		return tfn(p0, p1, p2)
 	}
 	vfn, found := varGoExpr[fname]
 	if found {
